@@ -1321,3 +1321,14 @@ REG["typing.overload"] = lambda f: f
 REG["typing.NamedTuple"] = TypeTag("NamedTuple", lambda x: False)
 REG["abc.abstractmethod"] = lambda f: f
 REG["abc.ABC"] = TypeTag("ABC", lambda x: False)
+
+
+# dask.array ------------------------------------------------------------------
+REG["dask.array.pad"] = np_pad
+REG["dask.array.from_array"] = lambda x, *a, **k: A.from_nested(x)
+REG["dask.array.Array"] = TypeTag("dask.Array", lambda x: isinstance(x, SArr) and getattr(x, "lazy", True))
+REG["dask.array.core.Array"] = REG["dask.array.Array"]
+REG["dask.array.stack"] = np_stack
+
+from . import rotation as _rotation
+_rotation.register(REG)
